@@ -162,6 +162,11 @@ def _separated_step(st, f):
     return (st[0] and not (st[1] and not f.is_symbol), not f.is_symbol)
 
 
+def _symbol_count_step(n, f):
+    return n + (1 if f.is_symbol else 0)
+
+
+symbol_count = Measure('symbol_count', 0, _symbol_count_step, Nat)      # number of symbol fragments
 rendered = Measure('rendered', '', _rendered_step, Str)
 well_formed = Measure('well_formed', True, _well_formed_step, Bool)
 separated = Measure('separated', (True, False), _separated_step, FixedList(Bool, Bool, as_tuple=True))
@@ -183,6 +188,7 @@ M.contract(P_SYM + ':_extract_fragment', params=dict(s=Str),
                'separated': lambda result: separated(result[1])[0],
                'a-trailing-constant-ends-the-string': lambda result: (not separated(result[1])[1]) or result[0] == '',
                'progress': lambda s, result: len(result[0]) < len(s),
+               'no-reference-syntax-no-symbols': lambda s, result: '@[' in s or symbol_count(result[1]) == 0,
            },
            raises_only=())
 
@@ -192,11 +198,13 @@ M.contract(P_SYM + ':split', params=dict(s=Str), old=lambda s: s, returns=FRAGME
                'well-formed': lambda result: well_formed(result),
                'no-adjacent-constants': lambda result: separated(result)[0],
                'single-fragment': lambda result: single_fragment_link(result),
+               'no-reference-syntax-no-symbols': lambda s, result: '@[' in s or symbol_count(result) == 0,
            },
            raises_only=())
 M.loop(P_SYM + ':split', 0,
        invariant=lambda s, ret_val, old:
-       rendered(ret_val) + s == old and well_formed(ret_val) and separated(ret_val)[0]
+       ('@[' in old or symbol_count(ret_val) == 0)
+       and rendered(ret_val) + s == old and well_formed(ret_val) and separated(ret_val)[0]
        and ((not separated(ret_val)[1]) or s == '') and single_fragment_link(ret_val),
        modifies=dict(s=Str, fragments='local', ret_val=FRAGMENTS),
        decreases=lambda s: len(s))
@@ -258,8 +266,42 @@ def fragments_of_token(token, result):
             and single_fragment_link(result))
 
 
+def naked_text(x):
+    """a naked fragment: no white space (not modelled further here), no quote characters"""
+    return x != '' and "'" not in x and '"' not in x
+
+
+_MIXED_QUOTING_REPLAY = """
+from exactly_lib.impls.types.string_ import parse_string
+from exactly_lib.section_document.element_parsers.token_stream import TokenStream
+bad = []
+for src, expected in (("a'@[x]@'", [('a@[x]@', False)]),          # the reference is inside hard quotes
+                      ("'a'@[x]@", [('a', False), ('x', True)])):  # the reference is outside the hard quotes
+    actual = [(f.value, f.is_symbol) for f in parse_string.parse_fragments_from_tokens(TokenStream(src))]
+    print('%r: fragments %r, the documented syntax gives %r' % (src, actual, expected))
+    if actual != expected:
+        bad.append(src)
+sys.exit(1 if bad else 0)
+"""
+
 M.contract(P_PS + ':parse_fragments_from_token', params=dict(token=TOKEN), returns=FRAGMENTS,
-           ensures={'fragments-of-the-token': lambda token, result: fragments_of_token(token, result)},
+           ghosts=dict(x=Str, y=Str),
+           ensures={
+               # what the code implements: the quoting of a token is decided by its first source character
+               'fragments-of-the-token': lambda token, result: fragments_of_token(token, result),
+               # what the property demands for adjacent fragments of different forms ("references are substituted
+               # everywhere except inside hard quotes"), for arbitrary texts x, y.  Both are REFUTED on the
+               # unchanged tree (known finding "mixed quoting"): the token is treated as a whole.
+               #   x'y'  (a naked fragment without reference syntax, then a hard-quoted fragment): no symbol
+               'no-substitution-inside-a-hard-quoted-fragment': lambda token, x, y, result:
+               not (token[2] == x + "'" + y + "'" and token[1] == x + y and naked_text(x) and '@[' not in x
+                    and "'" not in y) or symbol_count(result) == 0,
+               #   'y'@[x]@  (a hard-quoted fragment, then a naked reference): the reference is a symbol fragment
+               'substitution-outside-hard-quotes': lambda token, x, y, result:
+               not (token[2] == "'" + y + "'" + render_ref(x) and token[1] == y + render_ref(x)
+                    and valid_name(x) and "'" not in y) or symbol_count(result) >= 1,
+           },
+           replay=lambda model, rf: _MIXED_QUOTING_REPLAY,
            raises_only=())
 
 
